@@ -125,8 +125,10 @@ Spans of submodels differ:
             span=span, dtype=dtype, default_value=default_value, **initial_values
         )
 
-        self.add_attribute('endogenous', self.ENDOGENOUS)
-        self.add_attribute('check', self.CHECK)
+        # Copy the class-level lists: instances mustn't share (and be able to
+        # alter) the class's own lists
+        self.add_attribute('endogenous', list(self.ENDOGENOUS))
+        self.add_attribute('check', list(self.CHECK))
 
     @property
     def sizes(self) -> Dict[Hashable, int]:
